@@ -211,9 +211,6 @@ fn lb_exclude(p: &Node) -> Option<&'static str> {
     if !p.has_lookbehind() {
         return Some("no-look-behind");
     }
-    if p.has_keepout_in_lookbehind() {
-        return Some("class-FK (\\K below a look-behind, see C08)");
-    }
     diff::default_exclude(p)
 }
 
@@ -238,7 +235,7 @@ pub fn run(ctx: &Ctx) -> Outcome {
         }
     }
     let texts3 = spaces::texts_mb(ctx.tier.pick(3, 4));
-    let cfg = DiffCfg { prop: "C13", compare: Compare::All, entry_points: false, ref_budget: refm::BUDGET, step_cap: Some(2_000_000), exclude: &lb_exclude, static_known: &diff::no_static_known };
+    let cfg = DiffCfg { prop: "C13", compare: Compare::All, entry_points: false, ref_budget: refm::BUDGET, step_cap: Some(2_000_000), exclude: &lb_exclude, static_known: &diff::no_static_known, style: None };
     let n_lb = lb.len();
     let acc3 = diff::run(ctx, &cfg, &lb, &texts3);
     let mb_lb = acc3.distinct;
